@@ -6,6 +6,7 @@ import (
 	"math"
 	"math/big"
 	"strings"
+	"time"
 
 	clip "github.com/bolom009/go-clipper2"
 )
@@ -13,14 +14,35 @@ import (
 func init() { commands["c01"] = cmdC01 }
 
 // safeCall runs f and converts a panic into an error string
+// safeCall runs one library call under recover and a watchdog: a panic comes back as its message, a call
+// that does not return within hangLimit as "hang: ..." (its goroutine is abandoned; after maxHangs such
+// calls the remaining calls of the stream are skipped so that the run still ends and reports).
+const hangLimit = 10 * time.Second
+const maxHangs = 3
+
+var hangs int
+
 func safeCall(f func()) (perr string) {
-	defer func() {
-		if x := recover(); x != nil {
-			perr = fmt.Sprint(x)
-		}
+	if hangs >= maxHangs {
+		return "skipped: earlier calls did not return"
+	}
+	done := make(chan string, 1)
+	go func() {
+		defer func() {
+			if x := recover(); x != nil {
+				done <- fmt.Sprint(x)
+			}
+		}()
+		f()
+		done <- ""
 	}()
-	f()
-	return ""
+	select {
+	case msg := <-done:
+		return msg
+	case <-time.After(hangLimit):
+		hangs++
+		return fmt.Sprintf("hang: the call did not return within %v", hangLimit)
+	}
 }
 
 // run a boolean op through one of the API variants
